@@ -271,7 +271,7 @@ def b_configs(job):
 BUILDERS = {"answers": b_answers, "models": b_models, "incremental": b_incremental, "configs": b_configs}
 
 def build(job):
-    import engine, termsdrv, tsolverdrv, ratdrv, stopdrv, threadsdrv, numlit  # register their builders
+    import engine, termsdrv, tsolverdrv, ratdrv, stopdrv, threadsdrv, numlit, namesdrv  # register their builders
     try:
         return BUILDERS[job["builder"]](job)
     except Exception as ex:
@@ -828,10 +828,48 @@ UNSUPPORTED = ["(get-assertions)", "(get-info :all-statistics)", "(get-info :nam
                "(assert (distinct))", "(assert (distinct p0))", "(assert (=> p0))", "(assert (xor p0))", "(assert (- ))",
                "(assert (to_real 1))", "(assert (= (to_int 1.5) 1))", "(assert (is_int 1.0))", "(assert (abs 1))"]
 
+def corner_commands(g, rng, names=()):
+    """grammatical but unusual commands built from the script's own vocabulary: symbols with printf directives,
+    attributes without or with non-symbol values, qualified identifiers in every position, query commands with too few
+    or ill-typed arguments, numerals of every size, options changed in the middle of a script"""
+    syms = [tb_name for tb_name in (["p0", "p1"] + (["x", "y"] if g.num else []) + (["u0", "f"] if g.uf else []) + (["a0"] if g.arr else []))]
+    weird = ["|a%sb|", "x%n", "|%d%s%s|", "%s", "|p q|", "p%%", "|\\|", "@k", ".ite1", "|;c|", "|(|", "?v", "!", "|n%s%d|"]
+    nums = ["0", "1", "5", "2147483647", "2147483648", "4294967296", "18446744073709551616", "99999999999999999999", "00", "1.5", "#b1", "#x1"]
+    sorts = ["Bool", "Int", "Real", "U", "(Array Int Int)", "Undeclared", "(Array Bool)", "(_ BitVec 4)"]
+    attrs = [":named", ":foo", ":pattern", ":named n1 :named n2", ":status"]
+    avals = ["", "5", "zz9", "(p0)", "|w w|", '"str"', ":kw", "1.0", "#b0"]
+    opts = [":global-declarations", ":produce-models", ":produce-unsat-cores", ":produce-interpolants", ":produce-proofs",
+            ":produce-assignments", ":incremental", ":print-cores-full", ":minimal-unsat-cores", ":pure-lookahead", ":sat-picky",
+            ":print-success", ":interpolation-bool-algorithm", ":verbosity", ":random-seed"]
+    ovals = ["true", "false", "0", "1", "7", "-1", "99999999999", '"a%s"', "maybe", "(x)"]
+    s, w, n = rng.choice, rng.choice(weird), rng.choice(nums)
+    term = s(syms + weird + ["(not p0)", "(and p0 p1)", "(as p0 Bool)", "(as %s %s)" % (s(syms), s(sorts)), "(! p0 %s %s)" % (s(attrs), s(avals)),
+                             "((as %s %s) %s %s)" % (s(syms), s(sorts), s(nums), s(syms)), "((_ %s %s) %s)" % (s(["extract", "to_fp", "divisible"]), n, s(syms)),
+                             "(%s %s)" % (w, s(syms)), "(let ((%s p0)) %s)" % (w, w), "(select %s %s)" % (s(syms), n), "(- %s)" % n, "(/ %s %s)" % (n, s(nums))])
+    nm = list(names) + ["zq1", w, n]
+    T = [
+        "(assert %s)" % term,
+        "(assert (! %s %s %s))" % (term, s(attrs), s(avals)),
+        "(get-value (%s))" % term, "(get-value (%s %s))" % (term, s(syms)), "(get-value ())",
+        "(declare-fun %s () %s)" % (w, s(sorts)), "(declare-fun %s (%s) %s)" % (s(syms + weird), s(sorts), s(sorts)),
+        "(declare-const %s %s)" % (w, s(sorts)), "(declare-sort %s %s)" % (s(["S1", w, "U", "Int"]), n),
+        "(define-fun %s ((%s %s)) %s %s)" % (s(["d1", w] + syms), s(["a", w, "p0"]), s(sorts), s(sorts), term),
+        "(push %s)" % n if n not in ("2147483647",) else "(push 3)", "(pop %s)" % n,
+        "(get-interpolants %s)" % " ".join(rng.sample(nm, rng.randint(0, min(3, len(nm))))),
+        "(get-interpolants (and %s) %s)" % (s(nm), s(nm)), "(get-interpolants (and) (and))", "(get-interpolants (not %s) %s)" % (s(nm), s(nm)),
+        "(get-unsat-core)", "(get-model)", "(get-assignment)", "(get-proof)", "(check-sat)", "(check-sat %s)" % s(syms),
+        "(set-option %s %s)" % (s(opts), s(ovals)), "(set-option %s)" % s(opts), "(get-option %s)" % s(opts + [":zz"]),
+        "(set-info %s %s)" % (s([":status", ":source", ":smt-lib-version", w]), s(["sat", "|a b|", '"x%s"', n])), "(get-info %s)" % s([":name", ":version", ":status", ":zz"]),
+        "(echo \"%s\")" % s(["%s%s%s", "%n", "a\\\"b", ""]), "(echo %s)" % w,
+        "(set-logic %s)" % s(["QF_UF", "ALL", "QF_AUFLIRA", "QF_ABV", w, n]),
+        "(exit %s)" % n, "(%s)" % w, "(%s %s)" % (w, term), "(assert)", "(assert %s %s)" % (term, term),
+    ]
+    return s(T)
+
 def b_badinput(job):
     rng = random.Random(job["seed"])
     g = G.Gen(rng, job["logic"])
-    mode = job.get("mode", rng.choice(["mutate", "inject", "inject", "order"]))
+    mode = job.get("mode", rng.choice(["mutate", "inject", "inject", "order", "corner", "corner"]))
     binary = C.os.path.join(C.VERIF, "build", job.get("flavour", "asan"), "opensmt")
     body = G.random_history(g, rng, n_assert=4, queries=[{"c": "get-model"}] if not g.arr else [], fdepth=1)
     opts = _opts("models") if not g.arr else []
@@ -865,6 +903,23 @@ def b_badinput(job):
             while pos and pos[0] == i:
                 pos.pop(0)
                 cmds.append({"c": "raw", "text": rng.choice(UNSUPPORTED)})
+            if c is not None:
+                cmds.append(c)
+        fam.add_run("s", "c0", "bad", cmds, io=io, binary=binary, timeout=30, det=False)
+    elif mode == "corner":
+        feat = rng.choice(["models", "cores", "itp", "proofs", "assign", "models"])
+        o2 = _opts(feat) + (_opts("models") if feat == "assign" else [])
+        body2 = G.random_history(g, rng, n_assert=4, p_named=0.6 if feat in ("cores", "itp", "assign") else 0.0, fdepth=1,
+                                 queries=[{"c": "get-model"}] if feat == "models" else
+                                         ([{"c": "get-unsat-core"}] if feat == "cores" else ([{"c": "get-assignment"}] if feat == "assign" else [])))
+        names = [c["nm"] for c in body2 if c["c"] == "assert" and c.get("nm")]
+        cmds = G.preamble(g, o2)
+        n = rng.randint(1, 5)
+        pos = sorted(rng.choice(range(len(body2) + 1)) for _ in range(n))
+        for i, c in enumerate(body2 + [None]):
+            while pos and pos[0] == i:
+                pos.pop(0)
+                cmds.append({"c": "raw", "text": corner_commands(g, rng, names)})
             if c is not None:
                 cmds.append(c)
         fam.add_run("s", "c0", "bad", cmds, io=io, binary=binary, timeout=30, det=False)
@@ -935,6 +990,10 @@ BUILDERS["rounding"] = b_rounding
 # ------------------------------------------------------------------ printed SMT-LIB reads back (C17)
 ODD_NAMES = ["a b", "x;y", "p(q", "r)s", "u\"v", "0abc", "let", "assert", "x!0", "y!1", "a@", "a.b", "A~", "1", "<=x", "true!", "Bool2",
              "par", "as", "exists", "ite!", "and$"]
+# every character that is not allowed in a simple symbol, at the first, an inner and the last position, and alone
+for _ch in " ;()\"#:',`[]{}":
+    ODD_NAMES += [_ch + "k", "k" + _ch + "m", "km" + _ch, _ch]
+ODD_NAMES = [n for i, n in enumerate(ODD_NAMES) if n not in ODD_NAMES[:i]]
 def b_printing(job):
     """models, values, cores, interpolants over symbols that need quoting or clash with reserved words / generated
     parameter names; then the printed model is read back by a fresh solver together with the assertions"""
